@@ -363,13 +363,16 @@ Proof.
       set (x := peval rho (map _ lo)). lra.
 Qed.
 
+Lemma if_true_iff (a b c : bool) : (if a then b else c) = true -> (a = true /\ b = true) \/ (a = false /\ c = true).
+Proof. destruct a; auto. Qed.
+
 Lemma existsb_sound {A} (f : A -> bool) l : existsb f l = true -> exists a, f a = true.
 Proof. intros H. apply existsb_exists in H. destruct H as (a & _ & H). eauto. Qed.
 
 Lemma match_exact_sound c o rho :
   match_exact c o = true -> cdefined rho c -> cdefined rho o -> (sat rho c <-> sat rho o).
 Proof.
-  unfold match_exact. intros H Dc Do. apply andb_true_iff in H. destruct H as [Eop H].
+  unfold match_exact. intros H Dc Do. destruct (cmp_eqb (c_op c) (c_op o)) eqn:Eop; [|discriminate].
   apply cmp_eqb_eq in Eop.
   assert (Ddc : defined rho (diff c)) by (unfold diff, cdefined in *; simpl; tauto).
   assert (Ddo : defined rho (diff o)) by (unfold diff, cdefined in *; simpl; tauto).
@@ -378,15 +381,17 @@ Proof.
   unfold sat. rewrite <- Eop.
   set (a := eval rho (c_l c)) in *. set (b := eval rho (c_r c)) in *.
   set (a' := eval rho (c_l o)) in *. set (b' := eval rho (c_r o)) in *.
-  apply orb_true_iff in H. destruct H as [H|H].
-  - apply existsb_sound in H. destruct H as (k & H). apply andb_true_iff in H. destruct H as [Hk Hz].
+  apply if_true_iff in H. destruct H as [[H _]|[_ H]].
+  - apply existsb_sound in H. destruct H as (k & H). destruct (scale_ok (c_op c) k) eqn:Hk; [|discriminate].
+    rename H into Hz.
     apply (is_zero_sound rho) in Hz. rewrite peval_pclean, peval_psub, peval_pscale, !peval_pmul in Hz.
     symmetry. apply cmp_scale with (k := k); [exact Hk|].
     rewrite Ho2, Hc2. field_simplify_eq; [|tauto].
     assert (Hz' : peval rho no * peval rho dc == k * (peval rho nc * peval rho dn)) by lra.
     rewrite Hz'. ring.
   - destruct (c_op c) eqn:Eo; try discriminate.
-    apply existsb_sound in H. destruct H as (k & H). apply andb_true_iff in H. destruct H as [Hk Hz].
+    apply existsb_sound in H. destruct H as (k & H). destruct (Qeq_bool k 0) eqn:Hk; [discriminate|].
+    rename H into Hz.
     apply (is_zero_sound rho) in Hz. rewrite peval_pclean, peval_psub, peval_pscale in Hz.
     assert (Hk' : ~ k == 0).
     { intros E. apply Qeq_bool_iff in E. rewrite E in Hk. discriminate. }
@@ -413,29 +418,31 @@ Proof. destruct a, b; simpl; intros H; try discriminate; reflexivity. Qed.
 
 Lemma eround_b_sound tol h : forall o, eround_b tol h o = true -> eround tol h o.
 Proof.
-  induction h as [p|v|op a IHa b IHb]; intros o H.
-  - cbn [eround_b] in H. rewrite orb_false_r in H. apply orb_true_iff in H. destruct H as [H|H].
+  induction h as [p|v|op a IHa b IHb]; intros o H; cbn [eround_b] in H.
+  - apply if_true_iff in H. destruct H as [[H _]|[_ H]].
     + destruct o as [q| |]; try discriminate. apply Qle_bool_iff in H. constructor. exact H.
-    + apply andb_true_iff in H. destruct H as [Hv Ho]. destruct o as [q| |]; try discriminate.
-      apply Qeq_bool_iff in Ho. apply ER_zero; assumption.
-  - cbn [eround_b vanishing] in H. rewrite orb_false_r in H. cbn [andb] in H. rewrite orb_false_r in H.
-    destruct o as [|w|]; try discriminate. apply String.eqb_eq in H. subst w. constructor.
-  - cbn [eround_b] in H. apply orb_true_iff in H. destruct H as [H|H]; [apply orb_true_iff in H; destruct H as [H|H]|].
+    + cbn [vanishing] in H. destruct (Qle_bool (Qabs p) tol) eqn:Hv; [|discriminate].
+      destruct o as [q| |]; try discriminate. apply Qeq_bool_iff in H. apply ER_zero; assumption.
+  - apply if_true_iff in H. destruct H as [[H _]|[_ H]].
+    + destruct o as [|w|]; try discriminate. apply String.eqb_eq in H. subst w. constructor.
+    + cbn [vanishing] in H. discriminate.
+  - apply if_true_iff in H. destruct H as [[H _]|[_ H]].
     + destruct o as [| |op' a' b']; try discriminate.
-      apply andb_true_iff in H. destruct H as [H Hb]. apply andb_true_iff in H. destruct H as [Hop Ha].
-      apply binop_eqb_eq in Hop. subst op'. constructor; auto.
-    + destruct op; try discriminate. apply orb_true_iff in H. destruct H as [H|H];
-        apply andb_true_iff in H; destruct H as [Hv Hr].
-      * apply ER_dropl; auto.
-      * apply ER_dropr; auto.
-    + apply andb_true_iff in H. destruct H as [Hv Ho]. destruct o as [q| |]; try discriminate.
-      apply Qeq_bool_iff in Ho. apply ER_zero; assumption.
+      destruct (binop_eqb op op') eqn:Hop; [|discriminate]. apply binop_eqb_eq in Hop. subst op'.
+      destruct (eround_b tol a a') eqn:Ha; [|discriminate]. constructor; auto.
+    + apply if_true_iff in H. destruct H as [[H _]|[_ H]].
+      * destruct op; try discriminate. apply if_true_iff in H. destruct H as [[H _]|[_ H]].
+        -- destruct (vanishing tol a) eqn:Hv; [|discriminate]. apply ER_dropl; auto.
+        -- destruct (vanishing tol b) eqn:Hv; [|discriminate]. apply ER_dropr; auto.
+      * destruct (vanishing tol (EBin op a b)) eqn:Hv; [|discriminate].
+        destruct o as [q| |]; try discriminate. apply Qeq_bool_iff in H. apply ER_zero; assumption.
 Qed.
 
 Lemma cround_b_sound tol h o : cround_b tol h o = true -> cround tol h o.
 Proof.
-  unfold cround_b, cround. intros H. apply andb_true_iff in H. destruct H as [H Hr].
-  apply andb_true_iff in H. destruct H as [Hop Hl]. apply cmp_eqb_eq in Hop.
+  unfold cround_b, cround. intros H.
+  destruct (cmp_eqb (c_op h) (c_op o)) eqn:Hop; [|discriminate]. apply cmp_eqb_eq in Hop.
+  destruct (eround_b tol (c_l h) (c_l o)) eqn:Hl; [|discriminate].
   repeat split; auto using eround_b_sound.
 Qed.
 
@@ -471,22 +478,27 @@ Proof.
   - apply Qeq_bool_iff. exact H.
 Qed.
 
-Lemma const_holds_sound c rho : const_holds c = true -> sat rho c.
+Lemma const_holds_sound c rho : const_holds c = true -> cdefined rho c -> sat rho c.
 Proof.
-  unfold const_holds. destruct (pnorm (c_l c)) as [l|] eqn:El; [|discriminate].
-  destruct (pnorm (c_r c)) as [r|] eqn:Er; [|discriminate].
-  destruct (as_const l) as [x|] eqn:Ex; [|discriminate]. destruct (as_const r) as [y|] eqn:Ey; [|discriminate].
-  intros H. apply cmp_b_sound in H. unfold sat.
-  eapply cmp_holds_comp; [| |exact H].
-  - rewrite (pnorm_sound rho _ _ El). apply as_const_sound. exact Ex.
-  - rewrite (pnorm_sound rho _ _ Er). apply as_const_sound. exact Ey.
+  unfold const_holds. intros H D.
+  assert (Dd : defined rho (diff c)) by (unfold diff, cdefined in *; simpl; tauto).
+  pose proof (rnorm_sound rho _ Dd) as [H1 H2].
+  destruct (rnorm (diff c)) as [n dn]. cbn [fst snd] in *.
+  set (k := match lead n, lead dn with Some x, Some y => Qred (x / y) | _, _ => 0 end) in *.
+  destruct (is_zero (pclean (psub n (pscale k dn)))) eqn:Z; [|discriminate].
+  apply (is_zero_sound rho) in Z. rewrite peval_pclean, peval_psub, peval_pscale in Z.
+  apply cmp_b_sound in H. unfold sat.
+  assert (E : eval rho (c_l c) - eval rho (c_r c) == k).
+  { change (eval rho (diff c) == k). rewrite H2.
+    assert (Z' : peval rho n == k * peval rho dn) by lra. rewrite Z'. field. exact H1. }
+  destruct (c_op c); simpl in *; lra.
 Qed.
 
-Lemma implied_sound eqs c rho : implied eqs c = true -> sat_all rho eqs -> sat rho c.
+Lemma implied_sound eqs c rho : implied eqs c = true -> sat_all rho eqs -> cdefined rho c -> sat rho c.
 Proof.
-  unfold implied. intros H Hs. apply existsb_exists in H. destruct H as (sq & Hin & H).
-  destruct (apply_seq_sound rho sq c (subst_seqs_sound rho eqs sq Hin Hs)) as [A _].
-  apply A. apply const_holds_sound. exact H.
+  unfold implied. intros H Hs D. apply existsb_exists in H. destruct H as (sq & Hin & H).
+  destruct (apply_seq_sound rho sq c (subst_seqs_sound rho eqs sq Hin Hs)) as [A B].
+  apply A. apply const_holds_sound; auto.
 Qed.
 
 (* ------------------------------------------------------------------ matching one condition *)
@@ -495,14 +507,16 @@ Lemma match_cond_sound d eqs hs c o m :
   rounded d m o /\
   forall rho, sat_all rho eqs -> cdefined rho c -> mdefined rho m -> (sat rho c <-> msat rho m).
 Proof.
-  unfold match_cond. intros H. apply first_some_sound in H. destruct H as (sq & Hin & H).
+  unfold match_cond. intros H. destruct (negb (cmp_eqb (c_op c) (c_op o))); [discriminate|].
+  apply first_some_sound in H. destruct H as (sq & Hin & H).
   destruct (match_poly d (apply_seq sq c) o) as [m'|] eqn:Ep.
   - injection H as <-. apply match_poly_sound in Ep. destruct Ep as [R E]. split; [exact R|].
     intros rho Hs Dc Do. rewrite E.
     destruct (apply_seq_sound rho sq c (subst_seqs_sound rho eqs sq Hin Hs)) as [A _]. symmetry. exact A.
   - apply first_some_sound in H. destruct H as (h & _ & H).
-    destruct (cround_b (tol_of d) h o && match_exact (apply_seq sq c) (apply_seq sq h)) eqn:Ee; [|discriminate].
-    injection H as <-. apply andb_true_iff in Ee. destruct Ee as [Er Ee]. split; [apply cround_b_sound; exact Er|].
+    destruct (cround_b (tol_of d) h o) eqn:Er; [|discriminate].
+    destruct (match_exact (apply_seq sq c) (apply_seq sq h)) eqn:Ee; [|discriminate].
+    injection H as <-. split; [apply cround_b_sound; exact Er|].
     intros rho Hs Dc Dh. simpl in *.
     pose proof (subst_seqs_sound rho eqs sq Hin Hs) as V.
     destruct (apply_seq_sound rho sq c V) as [A1 A2]. destruct (apply_seq_sound rho sq h V) as [B1 B2].
@@ -554,6 +568,9 @@ Proof.
     apply andb_true_iff in H. destruct H as [C1 C2]. exists lo, ro. repeat split; auto using close_b_sound.
 Qed.
 
+Lemma flat_map_snd_map {A B} (f : A -> list B) l : flat_map snd (map (fun c => (c, f c)) l) = flat_map f l.
+Proof. induction l as [|c cs IH]; simpl; [reflexivity|]. f_equal. exact IH. Qed.
+
 (* ------------------------------------------------------------------ the checker is sound *)
 Theorem check_pre_sound d hs conds out :
   check_pre d hs conds out = true ->
@@ -566,8 +583,16 @@ Proof.
   unfold check_pre. set (eqs := filter is_eq conds).
   set (use := fun c : cond => if is_eq c then [] else eqs).
   set (f := fun c => cover d (use c) hs out c).
-  intros H. apply andb_true_iff in H. destruct H as [H1 H2].
-  rewrite forallb_forall in H1, H2.
+  intros H.
+  change (forallb (fun cc : cond * list mcond =>
+                     match snd cc with [] => trivial (fst cc) || implied (use (fst cc)) (fst cc) | _ :: _ => true end)
+                  (map (fun c => (c, f c)) conds) &&
+          forallb (fun o => existsb (fun m => rounds_to d m o) (flat_map snd (map (fun c => (c, f c)) conds))) out = true) in H.
+  rewrite (flat_map_snd_map f conds) in H. apply andb_true_iff in H. destruct H as [H1' H2].
+  rewrite forallb_forall in H1', H2.
+  assert (H1 : forall c, In c conds -> match f c with [] => trivial c || implied (use c) c | _ :: _ => true end = true).
+  { intros c Hc. apply (H1' (c, f c)). apply in_map_iff. exists c. auto. }
+  clear H1'.
   exists (flat_map f conds). split; [|split].
   - intros rho Dc Dm. unfold defined_all, sat_all in *. rewrite Forall_forall in Dc, Dm.
     split.
@@ -581,7 +606,6 @@ Proof.
     + intros Hm. rewrite Forall_forall in Hm.
       assert (Hone : forall c, In c conds -> sat_all rho (use c) -> sat rho c).
       { intros c Hc Hes. specialize (H1 c Hc).
-        change (match f c with [] => trivial c || implied (use c) c | _ :: _ => true end = true) in H1.
         destruct (f c) as [|m ms] eqn:Efc.
         - apply orb_true_iff in H1. destruct H1 as [H1|H1].
           + apply trivial_sound; auto.
@@ -613,9 +637,10 @@ Qed.
 
 (* an inequality that simplify_inequality omits under its assumptions *)
 Theorem implied_under_sound assumptions c :
-  implied (filter is_eq assumptions) c = true -> forall rho, sat_all rho assumptions -> sat rho c.
+  implied (filter is_eq assumptions) c = true ->
+  forall rho, sat_all rho assumptions -> cdefined rho c -> sat rho c.
 Proof.
-  intros H rho Hs. eapply implied_sound; [exact H|].
+  intros H rho Hs D. eapply implied_sound; [exact H| |exact D].
   unfold sat_all in *. rewrite Forall_forall in *. intros e He. apply filter_In in He. apply Hs. tauto.
 Qed.
 
@@ -640,7 +665,8 @@ Proof.
     + intros rho. apply pnorm_sound. exact E1.
     + intros rho. apply pnorm_sound. exact E2.
     + apply close_b_sound. exact H.
-  - right. apply existsb_exists in H. destruct H as (h & _ & H). apply andb_true_iff in H. destruct H as [Hr He].
+  - right. apply existsb_exists in H. destruct H as (h & _ & H).
+    destruct (eround_b (tol_of d) h o) eqn:Hr; [|discriminate]. rename H into He.
     exists h. split; [apply eround_b_sound; exact Hr|]. intros rho. apply equiv_b_sound. exact He.
 Qed.
 
